@@ -308,6 +308,11 @@ let handle (w : string list) : string =
                       { now = Z0; ans = a; sent = [] } (parse_oz spni) (if first = "n" then None else Some (bytes_of_hex first))
                       (bytes_of_hex payload) (zi timeout) in
       show_res (function None -> "none" | Some (d, p) -> hex_of_bytes d ^ " pni=" ^ zs p) r ^ " sent=" ^ show_sent s'.sent
+  | ["tdeact"; b106; did; nad; miu; rwt; tick; grace; data; answers] ->
+      let a = parse_answers answers in
+      let (r, s') = t_deactivate (nat_of_int (List.length a + 5)) (mkcfg_ "0" b106 did nad miu rwt tick)
+                      { now = Z0; ans = a; sent = [] } (bytes_of_hex data) (zi grace) in
+      show_res (fun () -> "none") r ^ " sent=" ^ show_sent s'.sent
   | ["pdudec"; d] -> let b = bytes_of_hex d in show_res show_pdu (decode b Z0 (z_of_int (len_z b)))
   | _ -> "?unknown-command"
 
